@@ -57,18 +57,20 @@ func init() {
 const ClsReach = "reach"
 
 // StageBClasses are the obligation classes of Stage B.
-var StageBClasses = []string{ClsPre, ClsReach, ClsComplete}
+var StageBClasses = []string{ClsPre, ClsReach, ClsComplete, ClsControl}
 
 // StageBMinPerConfig: about 90% of the instances measured per configuration.
 func StageBMinPerConfig(cfgID string) map[string]int {
 	switch cfgID {
 	case "purego", "arm64", "f32", "f32pure", "386":
-		return map[string]int{ClsPre: stageBPreMin, ClsReach: stageBReachMin, ClsComplete: stageBCompleteMin}
+		return map[string]int{ClsPre: stageBPreMin, ClsReach: stageBReachMin, ClsComplete: stageBCompleteMin, ClsControl: 1}
 	}
 	return map[string]int{}
 }
 
-var stageBPreMin, stageBReachMin, stageBCompleteMin = 0, 0, 0
+// measured on the unchanged tree: pre 547 (u64) / 552 (u32), reach 359 / 360,
+// complete 151 + 1 (encapsulation), control 1
+var stageBPreMin, stageBReachMin, stageBCompleteMin = 490, 320, 136
 
 // DeclareStageBRules declares the Stage B rules with thresholds summed over
 // the configurations that will be analysed.
@@ -242,6 +244,30 @@ func CheckFieldStageB(run *report.Run, p *load.Program, rulePrefix string) {
 		}
 	}
 	sb.checkReach(roots)
+	sb.checkEncapsulation()
+
+	// sensitivity control: the propagated bounds are real (some operand of
+	// some primitive is an unreduced sum, above twice the reduced bound) and
+	// the obligations would fail under a smaller headroom
+	above, tight := 0, 0
+	twoD := new(big.Int).Lsh(be.D[0], 1)
+	for _, o := range sb.preList {
+		if o.Itv == nil {
+			continue
+		}
+		if o.Itv.Hi.Cmp(be.D[0]) > 0 {
+			above++
+		}
+		if o.Itv.Hi.Cmp(twoD) > 0 {
+			tight++
+		}
+	}
+	ctl := rules.Rule(ClsControl)
+	if above > 0 && tight > 0 {
+		ctl.OK("stage B sensitivity: unreduced operands reach primitives")
+	} else {
+		ctl.Failf("-", "stage B", "[%s] control failed: no primitive call receives an operand above the reduced bound (%d above D, %d above 2D): the element-level bounds are not being propagated", p.Cfg.ID, above, tight)
+	}
 
 	run.Extra["stageB_"+p.Cfg.ID] = map[string]any{
 		"scope_packages":            scopeNames,
@@ -402,6 +428,13 @@ func (sb *stageB) intercept(a *Analyzer, fr *frame, call *ssa.Call, fn *ssa.Func
 		return nil, false // interpreted in place (never called from element-level code)
 	}
 	sb.reached[call] = true
+	if ov.kind == kindConstructor {
+		if _, isPtr := fn.Signature.Results().At(0).Type().Underlying().(*types.Pointer); isPtr {
+			// UnsafeInner: limbs written through the returned pointer are not
+			// tracked by the element-level abstraction
+			a.undecide(call, "%s exposes the limbs of an element to its caller: writes through the result are not modelled", load.FuncName(fn))
+		}
+	}
 
 	// 1. the arguments as the primitive will see them
 	type argInfo struct {
@@ -667,6 +700,48 @@ func (sb *stageB) mapBack(v Value, paramObj map[int]int, args []Value) Value {
 // checkReach accounts for every static call of a primitive in the scope.
 func (sb *stageB) checkReach(roots []*ssa.Function) {
 	ru := sb.rules.Rule(ClsReach)
+	// functions that only run inside primitives (feMul -> feMulGeneric ...):
+	// static callees of primitives, transitively, that nothing else calls
+	calledByOther := map[*ssa.Function]bool{}
+	callees := map[*ssa.Function][]*ssa.Function{}
+	for _, fn := range sb.p.ModuleFuncs() {
+		for _, b := range fn.Blocks {
+			for _, in := range b.Instrs {
+				if call, ok := in.(*ssa.Call); ok {
+					if c := call.Common().StaticCallee(); c != nil {
+						callees[fn] = append(callees[fn], c)
+					}
+				}
+			}
+		}
+	}
+	inner := map[*ssa.Function]bool{}
+	var mark func(fn *ssa.Function)
+	mark = func(fn *ssa.Function) {
+		for _, c := range callees[fn] {
+			if _, isPrim := sb.prims[c]; !isPrim && !inner[c] && c.Pkg == fn.Pkg {
+				inner[c] = true
+				mark(c)
+			}
+		}
+	}
+	for fn := range sb.prims {
+		mark(fn)
+	}
+	for fn, cs := range callees {
+		_, isPrim := sb.prims[fn]
+		if isPrim || inner[fn] {
+			continue
+		}
+		for _, c := range cs {
+			calledByOther[c] = true
+		}
+	}
+	for fn := range inner {
+		if calledByOther[fn] {
+			delete(inner, fn) // also called from element-level code: must be reached
+		}
+	}
 	var unreachedFns []string
 	for _, fn := range sb.p.ModuleFuncs() {
 		pk := fn.Pkg
@@ -678,6 +753,9 @@ func (sb *stageB) checkReach(roots []*ssa.Function) {
 		}
 		if _, isPrim := sb.prims[fn]; isPrim {
 			continue
+		}
+		if inner[fn] {
+			continue // only runs inside a primitive: covered by stage A
 		}
 		live := load.LiveBlocks(fn)
 		missed := 0
@@ -710,4 +788,40 @@ func (sb *stageB) checkReach(roots []*ssa.Function) {
 		}
 	}
 	_ = unreachedFns
+}
+
+// checkEncapsulation verifies the assumption behind the by-type bounds: code
+// outside the scope cannot write the limbs of an element directly, i.e. no
+// exported struct type of the scope has an exported field that embeds a
+// field.Element (internal/field itself cannot be imported from outside the
+// module, and every importer inside the module is in the scope).
+func (sb *stageB) checkEncapsulation() {
+	ru := sb.rules.Rule(ClsComplete)
+	bad := 0
+	for _, pk := range sb.p.Pkgs {
+		if !sb.scope[pk.Types] || pk.Types == sb.p.Pkg(fieldRel).Types {
+			continue
+		}
+		sc := pk.Types.Scope()
+		for _, name := range sc.Names() {
+			tn, ok := sc.Lookup(name).(*types.TypeName)
+			if !ok || !tn.Exported() {
+				continue
+			}
+			st, ok := tn.Type().Underlying().(*types.Struct)
+			if !ok {
+				continue
+			}
+			for i := 0; i < st.NumFields(); i++ {
+				f := st.Field(i)
+				if f.Exported() && sb.a.heap.contains(f.Type()) {
+					bad++
+					ru.Fail(sb.p.Pos(f.Pos()), load.Rel(pk.Types)+"."+name, fmt.Sprintf("exported field %s.%s embeds a field.Element: code outside the analysed scope can store arbitrary limbs, the by-type bounds are not an invariant", name, f.Name()), nil)
+				}
+			}
+		}
+	}
+	if bad == 0 {
+		ru.OK("encapsulation: no exported field embeds a field.Element")
+	}
 }
